@@ -3,7 +3,9 @@
 
 Sub-checks (case kinds):
   history          seeded sequences of operations on 1-3 long-lived parsers (valid, erroneous and aborted
-                   evaluations, re-registrations, further parsers, `foreignlex` = a PLY lexer built by the host);
+                   evaluations, re-registrations, further parsers, `foreignlex` = a PLY lexer built by the host; an
+                   evaluation aborted after it has read A1 and the host's edit of A1 in ONE block; + 1 fixed history
+                   of that shape);
                    after the set-up block and after every later operation every probe formula is evaluated on
                    every long-lived parser and must give exactly the record a FRESH parser with the same
                    registrations gives; the traceback chains of the nine singletons must stay short
@@ -26,7 +28,7 @@ Sub-checks (case kinds):
                    grow (object / byte growth is measured a second time, twice as long) [oracle: memory]
   order            pristine processes (harness/pristine.py: a server that has imported the library and evaluated
                    nothing forks one child per request): the `probe` formulas - every registered deterministic
-                   function called once - are evaluated on a new parser in one child alone and in another child
+                   function called once, on numbers, on texts or on error values / arrays / logicals / a date - are evaluated on a new parser in one child alone and in another child
                    after the `first` formulas (the same functions on other arguments); the two lists of records
                    must be equal; a differing pair is run again alone to name the smallest history
                                                    [oracle: history-independence across the process]
@@ -63,52 +65,60 @@ FUNCTIONS = ['hotxlfp.parser:Parser.__init__', 'hotxlfp.parser:Parser.parse', 'h
              'hotxlfp.formulas.statistical:LARGE', 'hotxlfp.tinyemitter:Emitter.emit',
              'ply.yacc:LRParser.__init__', 'ply.yacc:LRParser.parseopt_notrack', 'ply.lex:Lexer.clone', 'ply.lex:Lexer.input']
 RULE = ('(a) kind `history`: seeded histories on 1-3 long-lived parsers, quick 5 model-compared + 7 oracle-only (25 + 35 at '
-        'scale 5), thorough 60 + 140; 15/25/40 steps quick, 40/80/150/300 thorough (every 4th history 300). Set-up block: '
-        '1..all planned parsers, each with debug on at p 0.25 and the standard bindings (40 registrations: variables va vb v_c '
-        'rate_x lista listb txt and e_<tag> = each of the 9 error values; functions RAISE_<TAG> raising each error singleton, '
+        'scale 5), thorough 60 + 140, + 1 fixed oracle-only history (below); 15/25/40 steps quick, 40/80/150/300 thorough (every 4th history 300). Set-up block: '
+        '1..all planned parsers, each with debug on at p 0.25 and the standard bindings (41 registrations: variables va vb v_c '
+        'rate_x ovr (= c04.VARS, ovr registered with 41 here) lista listb txt and e_<tag> = each of the 9 error values; functions RAISE_<TAG> raising each error singleton, '
         'ID ARGS PYRAISE KEYRAISE NARAISE HOSTLIST; 7 cells incl. list-valued F6, ranges A1:B2 A1:A3; oracle-only histories 8 '
         'more: cells Z9 Y8 / range Y1:Z2 whose listener raises ValueError / the #NUM! singleton / KeyError, callVariable / '
         'callFunction listeners raising for badvar / BADFN, re-entrant EVALSELF). A step is one block: 18% a valid formula '
         '(fixed pool 38 model / 117 oracle-only, the latter across the builtin families and operators on lists), 12% a c04 '
-        'operator tree (c04.gen_top, fully parenthesised at p 0.3) or, p 0.5 each, a c08 error-propagation tree (c08.gen, '
+        'operator tree (c04.gen_top, whose call nodes are ID at 70 % and ABS - the shipped builtin on these parsers - at 30 %; fully parenthesised at p 0.3) or, p 0.5 each, a c08 error-propagation tree (c08.gen, '
         'error-leaf probability 0.15 / 0.3 / 0.6) under one of its 13 wrappers (per-history pool of max(4, steps/3) '
         'texts, depth 1..4 quick / 1..5 thorough), 8% (oracle-only) a random registered builtin (of the 152) with 0-3 '
         'arguments from a 15-member pool (incl. lists, an error value, cell, range, empty slot; per-history pool of '
         'max(4, steps/3) calls), 22% (model 30%) an erroneous formula (48 / 62: '
         'syntax errors, unknown names/functions, 1/0, bad arities, error literals/values, failing builtins; oracle-only 15% of '
-        'these a cut-off prefix of a valid formula), 16% an evaluation aborted by a raising callback (14 / 30: host functions '
-        'raising ValueError, KeyError, XLError singletons / also raising listeners, re-entrant evaluation), 19% a '
-        're-registration on a random parser (38 / 51: variables incl. lists, errors and the name TRUE, functions incl. '
+        'these a cut-off prefix of a valid formula), 16% an evaluation aborted by a raising callback (14 / 37: host functions '
+        'raising ValueError, KeyError, XLError singletons / also raising listeners, re-entrant evaluation, and 7 formulas that are '
+        'aborted AFTER a reference was read: A1+badvar, A1+#REF!, A1*2+BADFN(), SUM(A1:B2)+badvar, A1+(, SUM(A1:B2)), '
+        'A1&PYRAISE()&"x"), 19% a '
+        're-registration on a random parser (38 / 54, 8 of the 54 edits of cell A1 - to 100, 71, "txt", a raising answer, 71, 5, '
+        '"edited", 71: variables incl. lists, errors and the name TRUE, functions incl. '
         'shadowing SUM and defining NOSUCH, cell/range values, debug / listeners switched to raising and back), 2% '
         '(oracle-only) `foreignlex`: the host builds and runs a PLY lexer of its own (ply.lex.lex over a class with the '
         'tokens WORD / INT, fed "host text 42" and read to its end; a block without record or registration), so '
-        'ply.lex.lexer is foreign, 3% (model 5%) a further parser with the standard bindings (one block) or, all being built, the empty formula. After the set-up '
+        'ply.lex.lexer is foreign, 3% (model 5%) a further parser with the standard bindings (one block) or, all being built, the empty formula. In the oracle-only histories a formula step whose text begins with A1 (of the fixed '
+        'pools: A1+b2, A1:, and 5 of the 7 above) is at p 0.7 followed IN THE SAME BLOCK by an edit of cell A1 on the same parser '
+        '(to 5, "edited", 71, 6 or 0): no probe and no other evaluation runs between that evaluation (for the 5 an abort) and the edit. The fixed history: one '
+        'parser (debug off) with the 49 bindings, 4 such blocks (A1+badvar then A1 = 5, A1+#REF! then "edited", A1*2+BADFN() then '
+        '71, A1+( then 6), probes A1&"x", A1+1, SUM(A1:B2). After the set-up '
         'block and after every step every probe (22 model / 43 oracle-only; a seeded half when steps > 100) is evaluated on '
         'every parser built so far and its record compared (type-strict ==: 1, 1.0, True differ; float tolerance 0, NaN = NaN) '
         'with that of a fresh parser given the same registrations in the same order (built once per parser x registration '
         'state x probe); the records of the steps themselves are compared with the model only; after every block the traceback '
         'chains of the nine singletons must total <= 100 entries; a history stops at 5 findings. (b) kind `debug`, 2 cases: '
-        '120 (thorough all 252, 244 distinct) of the fixed valid/erroneous/raising/probe formulas; 60 (300) c04/c08 trees of depth <= 5 + 80 '
+        '120 (thorough all 259, 251 distinct) of the fixed valid/erroneous/raising/probe formulas; 60 (300) c04/c08 trees of depth <= 5 + 80 '
         '(600) random builtin calls; each + 10 formulas passing unprintable host values (an object whose repr/str raise, a '
         'list nested 5000 deep) through variables, cell H9, range H9:H10, host functions TAKES / GIVES; every formula on three '
-        'parsers with the 48 bindings - debug off, on, toggled per formula - stderr captured, the three records type-strict '
+        'parsers with the 49 bindings - debug off, on, toggled per formula - stderr captured, the three records type-strict '
         'equal. Kind `inert`, 1 case: 40 seeded valid + 12 fixed formulas on a parser without extra listeners, twice on one '
         'with callFunction / callVariable journal listeners that set and raise nothing (the callFunction one edits in place '
         'the argument list it is handed), on the first again, on a parser created afterwards: five equal records. Kind '
         '`transient`, 1 case: 7 fixed (bonus+1, rate*10, Q7+1, SUM(1,2), ISBLANK(Q7), rate&"x", bonus) + 25 seeded valid '
-        'formulas on parsers with the 48 bindings, the variable rate = 2 and three more listeners behind a flag '
+        'formulas on parsers with the 49 bindings, the variable rate = 2 and three more listeners behind a flag '
         '(callVariable sets bonus = 7 / rate = 5, callCellValue sets Q7 = 40, callFunction sets 1000 for SUM): the records '
         'of a parser whose flag was never on are the reference; a second parser evaluates all with the flag on, then again '
         'with it off; a third evaluates all with the flag on, has the three listeners removed with Parser.off and '
         'evaluates again: the records after switching off and after removal type-strict equal to the reference, and on '
         'the second parser Parser.variables still has rate = 2 and no bonus. debug / inert / transient keep at most 5 '
         'findings. (c) kind '
-        '`immut-fn`, one case per registered builtin (152): 88 formulas = arity 1..3 x 10/14/13 argument sets over 13 host '
+        '`immut-fn`, one case per registered builtin (152): 108 formulas = arity 1..3 x 11/17/18 argument sets over 14 host '
         'values (flat unsorted, nested, mixed, deep, text, empty, one-element lists, dict, object holding a list, tuple '
-        'holding a list) as variables, once more as cell / range / host-function result (rotating), every third through host '
+        'holding a list, trail = [3,7,9,None,None] - a column with blank cells at its end, cell O1 / range O1:O5 / H_TRAIL(), in 1 + 3 + 5 '
+        'of the argument sets, e.g. (7, trail, 0), (7, trail, 1), (8, trail, -1), (trail, ">3", trail)) as variables, once more as cell / range / host-function result (rotating), every third through host '
         'function KEEP; kind `immut-ops`, 1 case of 2336 formulas: the 11 binary operators x 10 list / tuple values x 4 '
         'delivery paths (value op 2, "x" op value) and x 4 partner lists, and 12 values x 4 paths x 12 shapes (unary minus, '
-        'array literals, parentheses, IF, IFERROR, KEEP, SUM, bare). One parser per case; after every formula each of the 13 '
+        'array literals, parentheses, IF, IFERROR, KEEP, SUM, bare; trail is in no immut-ops formula but is registered and compared). One parser per case; after every formula each of the 14 '
         'values is compared with its deep copy (==) and with the id and length of every nested list/tuple/dict (to depth 20); '
         'stops at 3 findings; a formula running > 10 s (SIGALRM, wall-clock) is skipped, not judged. (d) kind `memory`: 18 '
         'formulas quick / 36 thorough (valid, syntax and name errors, raised and returned errors, raising callbacks, '
@@ -124,7 +134,9 @@ RULE = ('(a) kind `history`: seeded histories on 1-3 long-lived parsers, quick 5
         'SUM(1,2), UPPER("a"), DATE(2020,1,2); probe ROMAN(1999), ROMAN(3888,2), SUM(1,2,3), UPPER("b"), DATE(2021,3,4)); the order '
         'cases come first in the case list. A batch = two lists `first` and `probe` with one call of every registered function but '
         'the four excluded ones (152, in the order of formulas.supported()); per batch one arity 1..3 (drawn from 1,1,2,2,3) and '
-        'one pool for the first argument (p 0.35 ORDER_TEXTS = 12 text literals, else ORDER_NUMS = 15 numbers); per function the '
+        'one pool for the first argument (p 0.3 ORDER_TEXTS = 12 text literals; p 0.2 ORDER_ERRS = 12 formulas for what one function '
+        'made and another is handed: 6 error values 1/0, NA(), "a"+1, SQRT(-1), INDEX({1,2},5), nosuch, 3 arrays {1,2,3}, {1;2}, '
+        '{"a","b"}, 2 logicals TRUE, 1=2, the date DATE(2020,1,15); else, p 0.5, ORDER_NUMS = 15 numbers); per function the '
         'further arguments from the 15 numbers + the first 3 texts; the probe call has another draw of the first argument from '
         'the same pool and the same further arguments, which at p 0.3 are replaced by draws from the numbers. run_order sends two '
         'requests to the server harness/pristine.py (started by the first order case as `python -m harness.pristine`; it imports '
@@ -157,8 +169,8 @@ TRUSTED = ['the LR stack residue after an aborted parse is over-approximated by 
            '(values are immutable in the model): gc.get_objects / tracemalloc (1 frame, file names */hotxlfp/* */ply/*) / '
            'traceback-chain walks are the measuring instruments, 0.05 objects and 0.5 bytes per evaluation the noise floor',
            'model-compared histories stay inside the modelled fragment (operators, literals, variables, cells, ranges, '
-           'Logic/Info builtins, SUM, host functions); other builtins, raising listeners, EVALSELF, foreignlex and cut-off '
-           'formulas take part in the oracle-only histories',
+           'Logic/Info builtins, SUM, host functions and, through the call nodes of the c04 trees, the shipped ABS); other builtins, raising listeners, EVALSELF, foreignlex, cut-off '
+           'formulas and the blocks that join an aborted evaluation with an edit of A1 take part in the oracle-only histories',
            'transient: the reference is not a model answer but the same implementation on a parser built the same way whose '
            'three extra listeners never answer; the answering listeners are the harness\'s own (a flag switches them, '
            'Parser.off removes them) and run after the standard listeners of the harness parser (whose cell listener has '
@@ -186,6 +198,10 @@ ASSUMPTIONS = ['"bindings" = variables, functions, the listeners and what they d
                '"any sequence of earlier evaluations" includes evaluations and registrations on OTHER parsers of the process, '
                'parsers built later, re-entrant evaluation and a foreign PLY lexer built by the host; the verdict is on the '
                'probes after each step, the record of a step itself is not judged by the oracle',
+               'an evaluation that is aborted (unknown name, error literal, raising callback, syntax error) after it has read a '
+               'reference leaves nothing of what the host answered behind: when the host edits that cell next - no evaluation '
+               'running to its end in between - every later evaluation sees the edit, as on a fresh parser with the same '
+               'registrations',
                '"any sequence of earlier evaluations" includes the empty one at the level of the PROCESS: kind order '
                'reads "alone" as a process that has imported the library and evaluated nothing (no parser built before), in '
                'which one new parser without registrations evaluates the probe formulas in their order; the probe '
@@ -199,7 +215,7 @@ ASSUMPTIONS = ['"bindings" = variables, functions, the listeners and what they d
                'name, cell or function answer only the listener supplied is gone) and Parser.variables is as registered',
                'debug on/off: the clause is equality of the three records; printing that calls repr/str of a host value or '
                'recurses through a 5000-deep list shows only as a record that differs between the settings',
-               '"never mutates": == with a deep copy plus identity and length of every nested container of the 13 host values; '
+               '"never mutates": == with a deep copy plus identity and length of every nested container of the 14 host values; '
                'a result that aliases a host list and what a host function does with its arguments are not judged',
                '"retains no memory per evaluation": what stays reachable after an evaluation may depend on the LAST formula '
                '(ply keeps the last stacks and the last clone lexer) but not on the number of evaluations; 30 warm-up '
